@@ -52,7 +52,7 @@ impl Property for C02 {
         let nmax = t.pick(200, 400);
         let gmax = t.pick(14, 18);
         prop_oneof![
-            2 => (curve2_spec(2, nmax, -2.0, 2.0, false), prop::collection::vec(cq(), 10..40)).prop_map(|(spec, queries)| Case::Curve2 { spec, queries }),
+            2 => (curve2_spec_fine(2, nmax, -2.0, 2.0), prop::collection::vec(cq(), 10..40)).prop_map(|(spec, queries)| Case::Curve2 { spec, queries }),
             1 => (curve3_spec(2, nmax, -2.0, 2.0, false), prop::collection::vec(cq(), 10..40)).prop_map(|(spec, queries)| Case::Curve3 { spec, queries }),
             3 => (clean_mesh(prop_oneof![3 => open_kind(gmax), 2 => closed_kind(2)].boxed(), 10.0), prop::bool::weighted(0.2), prop::collection::vec(query(), 10..40), logu(-2.0, 0.5), prop_oneof![4 => unif(0.05, PI / 2.0), 2 => unif(PI / 2.0, PI), 1 => prop::sample::select(vec![PI / 2.0, PI, 3.0])], iso3(3.0), prop_oneof![2 => Just(0i32), 1 => -30i32..=20])
                 .prop_map(|(spec, solid, queries, cap, ang, tf, exp2)| Case::Mesh { spec, solid, queries, cap, ang, tf, exp2 }),
@@ -131,6 +131,7 @@ fn curve2(spec: &Curve2Spec, queries: &[CQ]) -> Verdict {
         Ok(None) => return Verdict::Discard("degenerate polyline"),
         Err(e) => return Verdict::fail("C02/from_points/rejected_valid", e),
     };
+    cx.label_if(b.input.len() > b.expected.len() + 4, "fine_sampled_run");
     let lens = b.curve.lengths().clone();
     let mut nt = false;
     for c in queries {
